@@ -41,6 +41,11 @@ Definition zadd (x y : Z) : Z :=
   | Zneg a, Zneg b => Zneg (Pos.add a b)
   end.
 
+Definition zopp (x : Z) : Z := match x with Z0 => Z0 | Zpos a => Zneg a | Zneg a => Zpos a end.
+Definition zsub (x y : Z) : Z := zadd x (zopp y).
+Definition zmax (x y : Z) : Z := if zleb x y then y else x.
+Definition zmin (x y : Z) : Z := if zleb x y then x else y.
+
 Lemma zcompare_eq x y : zcompare x y = Z.compare x y.
 Proof. destruct x, y; reflexivity. Qed.
 Lemma zleb_eq x y : zleb x y = Z.leb x y.
@@ -59,4 +64,13 @@ Proof. unfold zpos_sub. now rewrite Z.pos_sub_spec. Qed.
 Lemma zadd_eq x y : zadd x y = Z.add x y.
 Proof. destruct x, y; cbn [zadd Z.add]; try reflexivity; apply zpos_sub_eq. Qed.
 
-Global Hint Rewrite zleb_eq zltb_eq zeqb_eq zadd_eq zcompare_eq : zplain.
+Lemma zopp_eq x : zopp x = Z.opp x.
+Proof. destruct x; reflexivity. Qed.
+Lemma zsub_eq x y : zsub x y = Z.sub x y.
+Proof. unfold zsub. now rewrite zadd_eq, zopp_eq. Qed.
+Lemma zmax_eq x y : zmax x y = Z.max x y.
+Proof. unfold zmax. rewrite zleb_eq. destruct (Z.leb_spec x y); lia. Qed.
+Lemma zmin_eq x y : zmin x y = Z.min x y.
+Proof. unfold zmin. rewrite zleb_eq. destruct (Z.leb_spec x y); lia. Qed.
+
+Global Hint Rewrite zleb_eq zltb_eq zeqb_eq zadd_eq zcompare_eq zopp_eq zsub_eq zmax_eq zmin_eq : zplain.
